@@ -176,6 +176,40 @@ pub fn run(ctx: &Ctx) {
     ctx.set_rule("case = one code value; HTYP and MSIN: all 256 bytes each, through the conversion functions and through a real message; type info: every word of the stated domain, compared with an independent decoder of the bit layout (exactly one of BOOL/SINT/UINT/FLOA/STRG/RAWD among bits 4..10, supported TYLE) and re-encoded in both byte orders; non-trivial = the word is accepted");
     ctx.run_family(Family::new("c14.htyp", 256, "all 256 HTYP bytes, each in a message with exactly the header fields it announces", |i, loc| judge_htyp(i as u8, loc)));
     ctx.run_family(Family::new("c14.msin", 256, "all 256 MSIN bytes through MessageType::try_from / u8::from and through the extended header of a message", |i, loc| judge_msin(i as u8, loc)));
+    // history: decoding a word must not depend on the words decoded before (memo tables, negative
+    // caches): for ALL ordered pairs (x, y) of patterns of bits 0..12, decode x, then judge y twice
+    {
+        let n: u64 = 1 << 13;
+        ctx.run_family(Family::new("c14.type_info.history", n * n, "ALL ordered pairs (x, y) over the 8192 patterns of bits 0..12 (TYLE, every kind flag, VARI, FIXP): TypeInfo::try_from(x), then y judged twice on the same thread", move |i, loc| {
+            let (x, y) = ((i / n) as u32, (i % n) as u32);
+            let _ = TypeInfo::try_from(x);
+            judge_type_info(y, loc, false);
+            judge_type_info(y, loc, false);
+        }).distinct());
+        // the same through the message parser (parse.rs decodes type-info words on its own path)
+        let words: Vec<u32> = (0..2048u32).map(|k| (k & 7) | ((k >> 3) & 0x7F) << 4 | ((k >> 10) & 1) << 12).collect();
+        let mk = |w: u32, big: bool| -> Vec<u8> {
+            let mut b = vec![if big { 0x23 } else { 0x21 }, 0x00, 0x00, 0x00, 0x41, 0x01, b'A', b'P', b'P', 0, b'C', b'T', b'X', 0];
+            b.extend_from_slice(&if big { w.to_be_bytes() } else { w.to_le_bytes() });
+            // data: a length prefix of 2 ("a\0" / two raw bytes) that is also a small number, then enough bytes for any width / fixed-point data
+            b.extend_from_slice(&if big { [0x00, 0x02] } else { [0x02, 0x00] });
+            b.extend_from_slice(b"a\0");
+            b.extend((0..40u8).map(|k| k / 3));
+            let l = b.len();
+            b[2] = (l >> 8) as u8;
+            b[3] = l as u8;
+            b
+        };
+        let msgs: Vec<Vec<u8>> = words.iter().flat_map(|w| [mk(*w, false), mk(*w, true)]).collect();
+        let m = msgs.len() as u64;
+        let msgs = &msgs;
+        ctx.run_family(Family::new("c14.type_info.parser_history", m * m, format!("ALL ordered pairs (a, b) over {} one-argument messages (every TYLE 0..7 x every pattern of the kind bits 4..10 x FIXP, both byte orders): parse a, then b twice; both verdicts on b must equal the reference decoder's", m), move |i, loc| {
+            let (a, b) = (&msgs[(i / m) as usize], &msgs[(i % m) as usize]);
+            let _ = catch(|| dlt_core::parse::dlt_message(a, None, false).map(|_| ()));
+            crate::p02_refcodec::judge_decode(b, false, loc);
+            crate::p02_refcodec::judge_decode(b, false, loc);
+        }).distinct());
+    }
     match ctx.tier {
         Tier::Quick => {
             let highs: Vec<u32> = {
